@@ -8,6 +8,7 @@ import (
 	"fmt"
 	"runtime"
 	"strings"
+	"time"
 
 	"github.com/magisterquis/curlrevshell/verifharness/mon"
 	"github.com/magisterquis/curlrevshell/verifharness/mon/bk"
@@ -162,8 +163,8 @@ func judge(x *bk.Exec, viol func(key, what string)) {
 }
 
 func Run(r *mon.Run) {
-	r.Rule = "n = 2..4 bidirectional requests arrive together; their 2n halves are parked at the admission hook and released in a chosen permutation (every permutation for n = 2 and 3 in both tiers, for n = 4 sampled in quick and complete in thorough) on top of six base states (idle, unidirectional in-only/out-only/full, unidirectional or bidirectional shell held inside its tear-down window, optionally released half-way through the admissions); after each decision and after a probe the set of clients owning an attached half must have size <= 1. Every (n, base, order, late-release) tuple is distinct and non-trivial by construction. Engine selfend: between two admissions something ENDS: 1-3 requests (request A an /io request, the others /io requests or unidirectional i+o pairs) park at the admission hook on a broker that is idle (never used, or after a unidirectional / bidirectional shell has come and gone); the half admitted first is attached alone and then finishes BY ITSELF before its sibling is admitted, in every way its transport allows (input half: the next operator line's Write fails, its flush fails, the operator input channel is closed; output half: the body ends, fails, or delivers a last chunk with EOF; a cancelled request context is deliberately not among them), with its release section run at once (operator told the shell is gone), or parked before it until the sibling / the next admission has been decided; halves of the other requests are admitted before and after the ending, in every order for 1 and 2 requests (every ending position, x 3 bases x 2-3 hold modes x 5-6 endings), PRNG-sampled with one or two endings for 3. Judged: the rule above after every decision, and: once a half of an /io request has finished and been released the request is over as a whole - its other half is refused, or, if admitted, leaves again by itself with nothing sent to or shown of it (bounded by 10 s; staying attached alone is the violation), ConnectInOut returns, and the NEXT shell (fresh /io request, either half first, or an i+o pair; rotated) is accepted by the idle broker and passes the two-way I/O probe. Engine replay: the internal keys that the first 1-3 /io requests of ONE broker presented at the admission hook are used as unidirectional callback IDs against a FRESH broker whose 1st-3rd /io request is half attached or about to arrive (what a client could learn from its own copy of the program); no shell may consist of an /io half and that stream. Engine many: ONE state of the broker - a tear-down that does not finish (one side of the old /io or unidirectional shell gone, the other parked before its release section, as with an input side stuck in a write to a client that has stopped reading), a half-attached or a complete shell - is HELD while 70 ... 300 (thorough: also 1100 ... 3000) further requests arrive and are decided one after another through the gate hooks (PRNG mix of /io requests with the input or the output half admitted first, unidirectional i+o pairs in either order with the old shell's ID or another one, single unidirectional streams); tear-down states get a second round (held side released, next shell wedged in its own tear-down, 66 ... 145 more requests). However many requests a state has seen, the next one is judged as the gate engine judges the first: the rule above after every decision and after probes, and no half of an /io request is attached after the other half of the same request was refused. Engine skew: REAL TIME passes between the two admissions of an /io request that arrives during a tear-down: the first half is let through the admission hook at t0, the second 50 ms ... 1.5 s (every 24th case 2 ... 5 s) later by the clock whether or not the first has been decided, and the tear-down completes at a third moment (a fraction of the skew, or 0-800 ms, after the first half was seen to be decided; 0-1.3 s after t0; before t0; after both decisions); both admission orders x 4 tear-down states, a third of the cases with a second /io request inside the same window; up to 128 cases at a time, alongside the other engines. The clock only drives the schedule; the verdict is read from the one ordered log: a half of an /io request that logs 'New connection' after (log order) its other half was refused (refusal record, or connect returned without having been attached) is a violation, and at every 'New connection' the stream attached in the other direction (attached = 'New connection' logged, release hook not yet passed) must belong to the same client. Plus free-running stress (no gates) with 2-4 racing clients"
-	r.Assumptions = []string{"parking at the admit hook (outside b.mu) only chooses among orders the two racing goroutines of ConnectInOut can produce by themselves", "engine selfend: a half that is admitted after its sibling has finished and leaves again by itself without any traffic is tolerated (counted as selfend_orphan_half_admitted_and_ended_at_once): the program stops the pair a few instructions after the finished half's connect call has returned, so an admission can fall into that gap; only a half that is still attached 10 s later (bk.Bound, the bounded-progress limit used for every in-process step that normally takes microseconds), with nothing from outside ending it, is a violation", "engine selfend: after the operator input channel has been closed (ending closeich, one request only) no further shell is tried: the program is exiting then", "engine many: a stream parked by the harness in front of its release section (proxy returned, books not yet updated) stands for every way a tear-down can take long (e.g. an input side stuck writing to a client that stopped reading): for the admission code both are the same state - no ID, one cancel function still set; clients that call back hundreds or thousands of times while it lasts are ordinary", "engine skew: the two goroutines of ConnectInOut are not synchronised with each other, so any real-time distance between their arrivals at the broker is a legitimate schedule; the decision records 'New connection' / refusal are written while the broker is locked, so their order in the log is the order of the decisions and the verdict does not depend on the clock; a half that is not decided within 20 s of its admission makes the case inconclusive, not a violation", "engines many and skew: once the run has recorded 4 (many) / 6 (skew) violations the remaining cases are cut short - the run is a violation anyway"}
+	r.Rule = "n = 2..4 bidirectional requests arrive together; their 2n halves are parked at the admission hook and released in a chosen permutation (every permutation for n = 2 and 3 in both tiers, for n = 4 sampled in quick and complete in thorough) on top of six base states (idle, unidirectional in-only/out-only/full, unidirectional or bidirectional shell held inside its tear-down window, optionally released half-way through the admissions); after each decision and after a probe the set of clients owning an attached half must have size <= 1. Every (n, base, order, late-release) tuple is distinct and non-trivial by construction. Engine selfend: between two admissions something ENDS: 1-3 requests (request A an /io request, the others /io requests or unidirectional i+o pairs) park at the admission hook on a broker that is idle (never used, or after a unidirectional / bidirectional shell has come and gone); the half admitted first is attached alone and then finishes BY ITSELF before its sibling is admitted, in every way its transport allows (input half: the next operator line's Write fails, its flush fails, the operator input channel is closed; output half: the body ends, fails, or delivers a last chunk with EOF; a cancelled request context is deliberately not among them), with its release section run at once (operator told the shell is gone), or parked before it until the sibling / the next admission has been decided; halves of the other requests are admitted before and after the ending, in every order for 1 and 2 requests (every ending position, x 3 bases x 2-3 hold modes x 5-6 endings), PRNG-sampled with one or two endings for 3. Judged: the rule above after every decision, and: once a half of an /io request has finished and been released the request is over as a whole - its other half is refused, or, if admitted, leaves again by itself with nothing sent to or shown of it (bounded by 10 s; staying attached alone is the violation), ConnectInOut returns, and the NEXT shell (fresh /io request, either half first, or an i+o pair; rotated) is accepted by the idle broker and passes the two-way I/O probe. Engine replay: the internal keys that the first 1-3 /io requests of ONE broker presented at the admission hook are used as unidirectional callback IDs against a FRESH broker whose 1st-3rd /io request is half attached or about to arrive (what a client could learn from its own copy of the program); no shell may consist of an /io half and that stream. Engine many: ONE state of the broker - a tear-down that does not finish (one side of the old /io or unidirectional shell gone, the other parked before its release section, as with an input side stuck in a write to a client that has stopped reading), a half-attached or a complete shell - is HELD while 70 ... 300 (thorough: also 1100 ... 3000) further requests arrive and are decided one after another through the gate hooks (PRNG mix of /io requests with the input or the output half admitted first, unidirectional i+o pairs in either order with the old shell's ID or another one, single unidirectional streams); tear-down states get a second round (held side released, next shell wedged in its own tear-down, 66 ... 145 more requests). However many requests a state has seen, the next one is judged as the gate engine judges the first: the rule above after every decision and after probes, and no half of an /io request is attached after the other half of the same request was refused. Engine skew: REAL TIME passes between the two admissions of an /io request that arrives during a tear-down: the first half is let through the admission hook at t0, the second 50 ms ... 1.5 s (every 24th case 2 ... 5 s) later by the clock whether or not the first has been decided, and the tear-down completes at a third moment (a fraction of the skew, or 0-800 ms, after the first half was seen to be decided; 0-1.3 s after t0; before t0; after both decisions); both admission orders x 4 tear-down states, a third of the cases with a second /io request inside the same window; up to 128 cases at a time, alongside the other engines. The clock only drives the schedule; the verdict is read from the one ordered log: a half of an /io request that logs 'New connection' after (log order) its other half was refused (refusal record, or connect returned without having been attached) is a violation, and at every 'New connection' the stream attached in the other direction (attached = 'New connection' logged, release hook not yet passed) must belong to the same client. Plus free-running stress (no gates) with 2-4 racing clients. Engine http: 2-4 real /io clients race over TLS against hsrv in its default configuration. Engine cfg (CONFIGURATION MATRIX, in-process hsrv on real TLS): the same race under the server's documented options - -one-shell, -serve-files-from (directory / single file / relative / sub/../ spelling / symlink / name with spaces at the edges, holding files named io and c), -callback-template (regular file / symlink / missing at start-up and created later), -callback-address (one / 36), -tls-certificate-cache (new file in a new directory / file written by an earlier server life / inside the served directory), -ipv6-one-liners, -listen-address (no port / localhost:0 / [::1]:0 / 0.0.0.0:0) - each ALONE and EVERY PAIR of them (29 configurations; variants rotate per server life), with clients that do what real clients do: 2-6 clients (/io clients, unidirectional clients with an ID of their own, and unidirectional clients that first FETCH /c - all fetchers of a trial at the same time - and call back to the /i/{id} and /o/{id} their script carries, default or custom template) all open their TCP+TLS connections BEFORE anybody sends a request; the early ones send their requests together (optionally one half of client 0 is attached alone first), the LATE ones send theirs on their long-open connections only once a shell is attached and showing tokens, 0-300 ms later (with -one-shell: after the listener has been closed; every -one-shell trial has a late client and a server life of its own). Every client sends tokens naming itself, the operator then types 4 lines. Judged exactly as in engine http: within one shell (between two 'Shell is gone' notices) output of ONE client is shown; while no shell has gone the operator's lines reach ONE client; that client is the one whose output is shown; and two clients that fetched /c at the same time were not given the same ID (the ID is all that ties a client's two halves together). Engine bin: the same race (2-5 clients, always a late one) against the REAL BINARY on a pty (lines typed on the terminal, output read from the terminal) under main's own options: -one-shell, -log / CURLREVSHELL_LOG / both, -no-timestamps, -ctrl-i (file / directory / missing / % in the name / spaces in the name), -prompt (with a % verb in it), flag spellings --flag and -flag=value, a flag given twice (-listen-address, last one counts; -one-shell=false -one-shell), -callback-address (one / 30), -serve-files-from (directory / single file / relative / empty value), -callback-template (file / symlink): default, each alone, every pair with -one-shell twice, and of the other pairs a third drawn by index and seed (thorough: all pairs, 4 lives each)"
+	r.Assumptions = []string{"parking at the admit hook (outside b.mu) only chooses among orders the two racing goroutines of ConnectInOut can produce by themselves", "engine selfend: a half that is admitted after its sibling has finished and leaves again by itself without any traffic is tolerated (counted as selfend_orphan_half_admitted_and_ended_at_once): the program stops the pair a few instructions after the finished half's connect call has returned, so an admission can fall into that gap; only a half that is still attached 10 s later (bk.Bound, the bounded-progress limit used for every in-process step that normally takes microseconds), with nothing from outside ending it, is a violation", "engine selfend: after the operator input channel has been closed (ending closeich, one request only) no further shell is tried: the program is exiting then", "engine many: a stream parked by the harness in front of its release section (proxy returned, books not yet updated) stands for every way a tear-down can take long (e.g. an input side stuck writing to a client that stopped reading): for the admission code both are the same state - no ID, one cancel function still set; clients that call back hundreds or thousands of times while it lasts are ordinary", "engine skew: the two goroutines of ConnectInOut are not synchronised with each other, so any real-time distance between their arrivals at the broker is a legitimate schedule; the decision records 'New connection' / refusal are written while the broker is locked, so their order in the log is the order of the decisions and the verdict does not depend on the clock; a half that is not decided within 20 s of its admission makes the case inconclusive, not a violation", "engines cfg and bin: the configuration is no part of the property's statement, so the oracle is the one of the default configuration; the clock only drives the schedule (when the late clients send) - a trial whose early clients produced no shell within 5 s (8 s for the binary), or whose lines did not all arrive within 4 s (6 s), is merely not counted as identified (floors on the identified trials make a run that identified too few inconclusive); the lines-reach-one-client clause is applied only when no 'Shell is gone' was shown between the trial's 'Shell is ready' and the end of the typing; unidirectional clients that invent their IDs invent different ones", "engine cfg: [::1]:0 and 0.0.0.0:0 need an IPv6 loopback / an interface with an address: where the server cannot start on them the unit runs on 127.0.0.1:0 and is counted as cfg_listen_address_form_unavailable; -icanhazip is left out (no network: the program exits at start-up, nothing to observe), -print-ctrl-i and -print-default-template exit before serving", "engines cfg and bin: once the run has recorded 6 violations (cfg) the remaining server lives are skipped - the run is a violation anyway", "engines many and skew: once the run has recorded 4 (many) / 6 (skew) violations the remaining cases are cut short - the run is a violation anyway"}
 	var cases []caseT
 	for _, n := range []int{2, 3} {
 		for _, p := range perms(2 * n) {
@@ -199,6 +200,25 @@ func Run(r *mon.Run) {
 			skewEngine(r)
 		}
 	}()
+	// engine cfg mostly waits for TLS handshakes and for the server: alongside as well
+	cfgDone := make(chan struct{})
+	go func() {
+		defer close(cfgDone)
+		if r.WantEngine("cfg") {
+			t0 := time.Now()
+			cfgRace(r)
+			r.Extra("engine_cfg_wall_s", int(time.Since(t0).Seconds()))
+		}
+	}()
+	binDone := make(chan struct{})
+	go func() {
+		defer close(binDone)
+		if r.WantEngine("bin") {
+			t0 := time.Now()
+			binRace(r)
+			r.Extra("engine_bin_wall_s", int(time.Since(t0).Seconds()))
+		}
+	}()
 	manyDone := make(chan struct{})
 	go func() {
 		defer close(manyDone)
@@ -206,6 +226,7 @@ func Run(r *mon.Run) {
 			manyEngine(r)
 		}
 	}()
+	tSeq := time.Now()
 	if r.WantEngine("gate") {
 		mon.Parallel(len(cases), runtime.NumCPU(), func(i int) {
 			if r.Want("gate", i) {
@@ -225,8 +246,11 @@ func Run(r *mon.Run) {
 	if r.WantEngine("http") {
 		httpRace(r)
 	}
+	r.Extra("engines_in_sequence_wall_s", int(time.Since(tSeq).Seconds()))
 	<-skewDone
 	<-manyDone
+	<-cfgDone
+	<-binDone
 	r.Exhaustive(false)
 	r.Extra("sampled_subspaces", "engine many: held state x number of requests (fixed by the case index) x PRNG mix of request kinds and admission orders; engine skew: tear-down state x admission order x completion kind (fixed by the case index) x PRNG skew / completion time")
 	r.Extra("complete_subspaces", "all admission orders of the halves of 2 and 3 requests x 6 base states (and of 4 requests in the thorough tier); selfend: every admission order x ending position x ending kind x hold mode x base for 1 and 2 requests")
